@@ -9,6 +9,7 @@ import (
 	"fmt"
 	"html"
 	"io"
+	"math"
 	"reflect"
 	"sort"
 	"strconv"
@@ -466,6 +467,19 @@ func showInCSSString(env *env, out io.Writer, value any) error {
 }
 
 // showInJS shows value in JavaScript context.
+// formatFloatJS formats f as a JavaScript numeric expression.
+func formatFloatJS(f float64, bitSize int) string {
+	switch {
+	case math.IsNaN(f):
+		return "NaN"
+	case math.IsInf(f, 1):
+		return "Infinity"
+	case math.IsInf(f, -1):
+		return "-Infinity"
+	}
+	return strconv.FormatFloat(f, 'f', -1, bitSize)
+}
+
 func showInJS(env *env, out io.Writer, value any) error {
 
 	w := newStringWriter(out)
@@ -505,9 +519,9 @@ func showInJS(env *env, out io.Writer, value any) error {
 	case reflect.Uint, reflect.Uint8, reflect.Uint16, reflect.Uint32, reflect.Uint64, reflect.Uintptr:
 		s = strconv.FormatUint(v.Uint(), 10)
 	case reflect.Float32:
-		s = strconv.FormatFloat(v.Float(), 'f', -1, 32)
+		s = formatFloatJS(v.Float(), 32)
 	case reflect.Float64:
-		s = strconv.FormatFloat(v.Float(), 'f', -1, 64)
+		s = formatFloatJS(v.Float(), 64)
 	case reflect.String:
 		_, err := w.WriteString("\"")
 		if err == nil {
